@@ -160,7 +160,27 @@ class SymStr:
     def __ne__(self, o):
         r = self.__eq__(o)
         return (not r) if isinstance(r, bool) else ~r
-    __hash__ = None
+
+    def __hash__(self):
+        # only a string whose value is fixed can be a dict key / set member;
+        # it hashes like the equal python str
+        return hash(self.concretize())
+
+    def concretize(self):
+        """python str value; a string that is not syntactically fixed is
+        concretised by forking over its feasible values (usually exactly one:
+        the path condition determines it)"""
+        c = self.const()
+        if c is not None:
+            return c
+        e = core.ex()
+        for _ in range(64):
+            if e.check() != z3.sat:
+                raise Infeasible()
+            v = self.concrete(e.solver.model())
+            if e.branch((self == v).e if not isinstance(self == v, bool) else z3.BoolVal(self == v)):
+                return v
+        raise Unsupported('string with more than 64 feasible values used as a dict key')
 
     def __bool__(self):
         return bool(mk(self.nz() > 0))
